@@ -430,7 +430,8 @@ class NodeWorld:
     the dirwatcher and of the tombstone monitor."""
 
     _SAVED = ('cache', 'bad', 'nextgen', 'cache_ident', 'cname', 'ready',
-              'fifo', 'tombs', 'link_seq', 'link_site', 'viol', 'stats',
+              'fifo', 'fifo_ages', 'evno', 'late_seen', 'tombs', 'link_seq',
+              'link_site', 'viol', 'stats',
               'crashes')
 
     def __init__(self, cfg, token=None):
@@ -460,7 +461,10 @@ class NodeWorld:
         self.cache_ident = {}        # path -> (ino, ctime)
         self.cname = {}              # container unique name -> (key, gen)
         self.ready = False
+        self.evno = 0
+        self.late_seen = False       # a notification was delivered late
         self.fifo = []               # [(kind, basename)] dirwatch queue
+        self.fifo_ages = []          # harness event in which each was queued
         self.tombs = []              # [(key, signal)] tombstones not yet processed
         # instrumentation
         self.viol = []
@@ -551,6 +555,11 @@ class NodeWorld:
         return s
 
     def flag(self, clause, site, detail):
+        if self.late_seen and site.startswith('AppCfgMgr.'):
+            # the history contains a dirwatch notification delivered after a
+            # later change (a deviation): findings that need one are told
+            # apart from findings that do not
+            site = site + ' [after a late notification]'
         self.viol.append({'clause': clause, 'site': site, 'detail': detail})
 
     def site_of(self, d, name):
@@ -811,13 +820,19 @@ class NodeWorld:
                 del self.cache[key]
                 self.cache_ident.pop(
                     os.path.join(self.cache_dir, INSTANCE[key]), None)
-                self.fifo.append(('deleted', INSTANCE[key]))
+                self._enq(('deleted', INSTANCE[key]))
         for name in present:
             if name != READY and name not in KEY_OF:
                 raise statex.HarnessError('unexpected cache file %r' % name)
 
+    def _enq(self, item):
+        self.fifo.append(item)
+        self.fifo_ages.append(self.evno)
+
     def deliver_one(self):
         kind, name = self.fifo.pop(0)
+        if self.fifo_ages.pop(0) < self.evno:
+            self.late_seen = True
         path = os.path.join(self.cache_dir, name)
         mgr = self.mgr
         handler = {'created': mgr._on_created,   # pylint: disable=W0212
@@ -828,7 +843,7 @@ class NodeWorld:
         self._sync_truth()
         if not ok:
             # the process died; s6 restarts it with an empty inotify queue
-            del self.fifo[:]
+            del self.fifo[:], self.fifo_ages[:]
             self.crash_at = 0
             self.new_manager()
 
@@ -858,6 +873,7 @@ class NodeWorld:
     # -- events -----------------------------------------------------------------
     def apply(self, ev):
         kind = ev[0]
+        self.evno += 1
         if self.prev is None:
             self.prev = self.snapshot()
         if kind == 'rdy':
@@ -867,11 +883,11 @@ class NodeWorld:
                 with io.open(path, 'w'):        # EventMgr._cache_notify(True)
                     pass
                 self.ready = True
-                self.fifo.append(('modified' if existed else 'created', READY))
+                self._enq(('modified' if existed else 'created', READY))
             else:
                 tm_fs.rm_safe(path)             # EventMgr._cache_notify(False)
                 self.ready = False
-                self.fifo.append(('deleted', READY))
+                self._enq(('deleted', READY))
             self.after_change(ev[2])
         elif kind == 'put':
             key, bad = ev[1], ev[2]
@@ -890,7 +906,7 @@ class NodeWorld:
             self.cache_ident[path] = (ino, ctime)
             self.cache[key] = gen
             self.cname[appcfg.eventfile_unique_name(path)] = (key, gen)
-            self.fifo.append(('created', name))
+            self._enq(('created', name))
             self.after_change(ev[3])
         elif kind == 'rep':
             # EventMgr._cache(check_existing=True): a stale manifest is
@@ -909,7 +925,7 @@ class NodeWorld:
             self.cache_ident[path] = ident(key, gen, self.salt)
             self.cache[key] = gen
             self.cname[appcfg.eventfile_unique_name(path)] = (key, gen)
-            self.fifo.append(('created', name))
+            self._enq(('created', name))
             self.after_change(ev[2])
         elif kind == 'del':
             key = ev[1]
@@ -918,7 +934,7 @@ class NodeWorld:
             os.unlink(path)                     # EventMgr._synchronize: extra
             del self.cache[key]
             self.cache_ident.pop(path, None)
-            self.fifo.append(('deleted', name))
+            self._enq(('deleted', name))
             self.after_change(ev[2])
         elif kind == 'dlv':
             self.crash_at = ev[1] if len(ev) > 1 else 0
@@ -928,7 +944,7 @@ class NodeWorld:
             finally:
                 self.crash_at = 0
         elif kind == 'rst':
-            del self.fifo[:]
+            del self.fifo[:], self.fifo_ages[:]
             self.new_manager()
             self.stats['restarts'] += 1
         elif kind == 'boot':
@@ -941,7 +957,7 @@ class NodeWorld:
                         os.unlink(p)        # rm -f leaves directories
             tm_fs.rm_safe(os.path.join(self.cache_dir, READY))
             self.ready = False
-            del self.fifo[:]
+            del self.fifo[:], self.fifo_ages[:]
             del self.tombs[:]
             self.new_manager()
             self.stats['boots'] += 1
@@ -1062,7 +1078,7 @@ class NodeWorld:
                          for n, t in s.running.items())),
             tuple(sorted((str(self.lname(n)), str(self.cid(t)))
                          for n, t in s.cleanup.items())),
-            tuple(self.fifo),
+            tuple(self.fifo), self.late_seen,
             tuple(self.tombs),
             self.mgr._is_active,  # pylint: disable=protected-access
             s.other,
